@@ -167,6 +167,26 @@ mut("C10", "failed-def-leaves-null-binding", "ckl/nodes.py",
         import ckl.functions""")
 
 
+mut("C10", "repl-concatenates-error-message", "ckl/repl.py",
+    '+ ": " + str(e.msg)', '+ ": " + e.msg')
+mut("C10", "repl-prints-raw-python-repr", "ckl/repl.py",
+    """                    if value != NULL:
+                        print(value)""",
+    """                    if value != NULL:
+                        print(value.value)""")
+mut("C10", "require-read-error-unwrapped", "ckl/nodes.py",
+    """        try:
+            with open(filepath, encoding="utf-8") as infile:
+                return infile.read()
+        except Exception:
+            raise CklRuntimeError(
+                ValueString("ERROR"),
+                f"Cannot read module file {filepath}",
+                self.pos)""",
+    """        with open(filepath, encoding="utf-8") as infile:
+            return infile.read()""")
+
+
 def apply(m, src_root):
     path = os.path.join(src_root, m["file"])
     with open(path) as f:
